@@ -191,8 +191,8 @@ def run(ctx):
     edge_replay(ctx, exe, 'MC_PageStackImpl_2a_edges.cfg', Shape(2, 2, {1}, {'p2': {0}, 'p1': {3}}, P2))
 
     # 3. bounded exhaustive exploration of the real code + random walks
-    cap = 400000 if T else 4000           # histories printed per run
-    big = 6000000 if T else 150000         # state bound of the larger runs
+    cap = 400000 if T else 1000           # histories printed per run
+    big = 6000000 if T else 60000          # state bound of the larger runs
     runs = [
         ('X 2 3 2000000 %d' % cap, 'cap=3'),                                   # one leaf in use, everything free
         ('X 2 3 2000000 %d' % cap, 'cap=5 free=0,2,3 hold=1:1'),
@@ -208,10 +208,10 @@ def run(ctx):
                  ('X 3 3 %d %d' % (big, cap), 'cap=130 free=5,129 hold=0:64'),
                  ('X 4 2 %d %d' % (big, cap), 'cap=130 free=70 hold=0:64,1:5'),
                  ('X 2 5 %d %d' % (big, cap), 'cap=5 free=0,2,3 hold=1:1')]
-    nw = 20000 if T else 1500
-    runs += [('W 4 6 %d %d 0' % (nw, ctx.seed + 1), 'cap=12'),
-             ('W 4 6 %d %d 0' % (nw, ctx.seed + 2), 'cap=200 free=0,63,64,100,128,199 hold=0:1,1:65,2:129,3:190'),
-             ('W 3 8 %d %d 0' % (nw, ctx.seed + 3), 'cap=66 free=64 hold=0:0,1:1,2:65')]
+    nw = 10000 if T else 400
+    runs += [('W 4 5 %d %d 0' % (nw, ctx.seed + 1), 'cap=12'),
+             ('W 4 4 %d %d 0' % (nw, ctx.seed + 2), 'cap=200 free=0,63,64,100,128,199 hold=0:1,1:65,2:129,3:190'),
+             ('W 3 6 %d %d 0' % (nw, ctx.seed + 3), 'cap=66 free=64 hold=0:0,1:1,2:65')]
     results = explore(ctx, exe, runs)
     lines, seen = [], set()
     for cmd, cfg, st, hists, viols in results:
@@ -235,16 +235,21 @@ def run(ctx):
 
     # 4. TLC decides on every distinct history: the property layer (reservation semantics) ...
     mod = os.path.join(SPEC, 'Trace_PagePool.tla')
-    rej = scheck.validate_histories(ctx, mod, os.path.join(SPEC, 'Trace_PagePool.cfg'), lines, 'pagepool', chunk=1500)
+    rej = scheck.validate_histories(ctx, mod, os.path.join(SPEC, 'Trace_PagePool.cfg'), lines, 'pagepool', chunk=3000)
     ctx.log('TLC validated %d distinct call/return histories against PagePool (P-layer); rejected: %d' % (len(lines), len(rej)))
     for i in rej[:3]:
         ctx.violation('history is not a behaviour of PagePool.tla (P-layer)',
                       {'kind': 'history', 'events': show(lines[i]) if isinstance(i, int) else i})
     # ... and the atomic pool (plain linearizability)
     n_traces = ctx.cov.get('impl_traces', 0)
-    srej = scheck.validate_histories(ctx, mod, os.path.join(SPEC, 'Trace_PagePool_strict.cfg'), lines, 'pagepool-strict', chunk=1500)
+    # (informative only; quick tier: an evenly spaced sample of the histories)
+    step = 1 if T else max(1, len(lines) // 2500)
+    sidx = list(range(0, len(lines), step))
+    srej = scheck.validate_histories(ctx, mod, os.path.join(SPEC, 'Trace_PagePool_strict.cfg'), [lines[i] for i in sidx],
+                                     'pagepool-strict', chunk=3000)
     ctx.cov['impl_traces'] = n_traces          # the same histories: not counted twice
-    srej = [i for i in srej if isinstance(i, int) and i not in set(rej)]
+    srej = [sidx[i] for i in srej if isinstance(i, int) and sidx[i] not in set(rej)]
+    ctx.cov['strict_checked'] = len(sidx)
     ctx.cov['strict_rejected'] = len(srej)
     ctx.log('histories that are not linearizable w.r.t. the atomic pool (Strict = TRUE) although PagePool accepts them: %d' % len(srej))
     if srej:
@@ -254,7 +259,7 @@ def run(ctx):
                          'a page is free during the whole call (the count reaches the root only at the end of a concurrent push, or is '
                          'claimed by a concurrent pop that ends up taking a page released later). They satisfy the reservation reading of '
                          'the property (PagePool.tla, Strict = FALSE), which is what decides here; shortest: %s' %
-                         (len(srej), len(lines), json.dumps(show(lines[shortest]))))
+                         (len(srej), len(sidx), json.dumps(show(lines[shortest]))))
         if STRICT_DECIDES or vlib.match_known(ctx.prop, {'class': STRICT_CLASS}) is not None:
             ctx.violation('history is not linearizable w.r.t. the atomic pool (PagePool.tla, Strict = TRUE)',
                           {'kind': 'history', 'class': STRICT_CLASS, 'events': show(lines[shortest])})
